@@ -1,5 +1,6 @@
 ---- MODULE MCGenDnsDial ----
 EXTENDS GenDnsDial
 PolQuick == {<<"failed">>}
+PolTwo == {<<"failed">>, <<"refused", "failed">>}
 PolAll == {<<"failed">>, <<"refused">>, <<"failed", "ok">>, <<"refused", "failed">>}
 ====
